@@ -57,6 +57,9 @@ func c14Jobs(cases []*lab.Case, lo, n, perJob int, mixed bool, rot int) []proto.
 		case 3, 5:
 			m.Pretty = true
 		}
+		// printing to standard output is something instances do concurrently too; the output
+		// (interleaved by nature) goes to /dev/null, the race detector and recover() observe
+		m.RawPrint = j%2 == 0 || m.Pretty
 		jobs = append(jobs, proto.Job{Pkg: fmt.Sprintf("g%d%s", cs.ID, v), Steps: steps, Mode: m})
 	}
 	return jobs
@@ -254,7 +257,7 @@ func init() {
 		"12 (quick) / 60 (thorough) well-formed grammars, default and -inline -switch parsers built into one binary with the race detector; job sets of 8 goroutines over one parser and of 16 goroutines over two different parsers, each goroutine owning one instance (Init with option values shared between goroutines: Size(64), DisableMemoize, Pretty, none) and running 3-4 Reset/Parse/Execute/Sprint/Error steps (one in three followed by a second Parse of another rule without Reset) behind a common barrier, repeated under GOMAXPROCS 2, 4 and 16; every concurrent job set is the first thing a fresh process does (lazily built package state is cold); every observation (incl. AST().PrettyPrint into a private buffer in Pretty mode) must equal the same parse run alone in the same binary, the race detector must stay silent and the worker must survive. Every job set is non-trivial (>=8 concurrent instances); distinct = (job set, GOMAXPROCS).",
 		[]string{
 			"schedules are sampled by the Go scheduler, not enumerated; the race detector is happens-before based, so an unsynchronised conflicting pair is flagged whenever both accesses execute",
-			"PrintSyntaxTree (global os.Stdout) is left out of concurrent jobs",
+			"PrintSyntaxTree / PrettyPrintSyntaxTree write to the process-wide standard output: they are called concurrently (output to /dev/null) for the race detector and for panics, their text is compared only in the sequential checks (C05, C12)",
 		},
 		runC14)
 }
